@@ -1,0 +1,25 @@
+//go:build verif
+
+// Package c19 re-exports, for the /verif C19 harness (which lives in another
+// module and therefore cannot import internal/...), the white-box hooks of
+// internal/raft and the real LogReader of internal/logdb. Compiled only with
+// -tags verif; add-only.
+package c19
+
+import (
+	"github.com/lni/dragonboat/v4/internal/logdb"
+	"github.com/lni/dragonboat/v4/internal/raft"
+)
+
+type Log = raft.VerifC19
+type InMem = raft.VerifC19InMem
+type LogReader = logdb.LogReader
+
+var (
+	NewLog               = raft.VerifC19New
+	SetApplyLimit        = raft.VerifC19SetApplyLimit
+	NewLogReader         = logdb.NewLogReader
+	ErrCompacted         = raft.ErrCompacted
+	ErrUnavailable       = raft.ErrUnavailable
+	ErrSnapshotOutOfDate = raft.ErrSnapshotOutOfDate
+)
